@@ -68,24 +68,33 @@ def rules(t):
     out.append(r)
 
     r = RuleResult("C03.c", "a message is released only when all slices arrived; each slice index counts once; size guards precede the copy", floor=3)
+    import rules.shared as shared
     rets = [s for s in t.aggrs("std::option::Option", "Some", ps)]
-    eq = list(t.find_cmp(ps, lambda a: t.is_field(a, "num_received_slices"), lambda b: t.is_field(b, "num_slices"), None))
+    eq = [e for e, br in rel_edges(t, ps, lambda a: t.is_field(a, "num_received_slices"), lambda b: t.is_field(b, "num_slices"), "Eq")]
     for s in rets:
         r.site(s)
-        if not any(op == "Eq" and t.edge_dominates(ps, te, s.bb) for br, op, te, fe in eq): r.bad("complete", s, "reassembled message returned without `num_received_slices == num_slices`")
-    for s in t.stores(SC, "num_received_slices", ps):
-        r.site(s)
-        got = [br for br in t.branches(ps) if br["kind"] == "bool" and "received" in fmt(br["raw"]) and "::index(" in fmt(br["raw"]) and "P2(slice_index)" in fmt(br["raw"])]
-        if not any(t.edge_dominates(ps, br["f_edge"], s.bb) for br in got): r.bad("once", s, "slice counted without the `!received[slice_index]` test (a duplicate could complete the message early)")
-        marks = [x for x in t.sites(ps) if x.node["k"] == "assign" and x.node["place"]["proj"] and "received" in fmt(t.place(x)) and "index_mut(" in fmt(t.place(x)) and "P2(slice_index)" in fmt(t.place(x))]
-        if not marks: r.bad("mark", s, "received[slice_index] is not set")
+        if not any(t.edge_dominates(ps, e, s.bb) for e in eq): r.bad("complete", s, "reassembled message returned without `num_received_slices == num_slices`")
+    cf = shared.counted_flag_rule(t, "C03.c", "", ps, SC, "num_received_slices", "received", r"P2\(slice_index\)")
+    r.sites += cf.sites
+    for v in cf.violations: r.bad(v.key.split("|", 1)[1].split("|")[-1], v.site, v.msg.replace("acknowledged/received", "received"))
     cp = list(t.calls(r"copy_from_slice$", ps))
-    szg = [br for br in t.branches(ps) if br["kind"] == "bool" and br["cond"][0] == "cmp" and "len(P3(bytes))" in fmt(br["raw"]).replace("&*", "").replace("&", "") and str(S) in fmt(br["raw"])]
-    for br in szg: r.site(Site(ps, br["bb"], 0, ps.blocks[br["bb"]]["term"]), fmt(br["raw"])[:60])
-    ops = sorted(br["cond"][1] for br in szg)
-    if ops != ["Gt", "Ne"]: r.bad("size-guards", None, f"size guards are {ops}, expected last: len > SLICE_SIZE -> Err, other: len != SLICE_SIZE -> Err")
-    for br in szg:
-        if cp and not (ps.dominates(br["bb"], cp[0].bb) or True): pass
+    is_len = lambda a: "len(P3(bytes))" in fmt(a).replace("&*", "").replace("&", "")
+    is_S = lambda b: const_eval(b) == S
+    size_edges = {e for e, br in rel_edges(t, ps, is_len, is_S, "Le")} | {e for e, br in rel_edges(t, ps, is_len, is_S, "Eq")}
+    for e in size_edges: r.site(Site(ps, e[0], 0, ps.blocks[e[0]]["term"]), "size guard")
+    from rules.netcode_common import reachable_avoiding
+    reach = reachable_avoiding(ps, 0, size_edges)
+    for c in cp:
+        if c.bb in reach: r.bad("size-guards", c, "payload copied into the reassembly buffer on a path where its length was not checked against SLICE_SIZE (`== SLICE_SIZE`, or `<= SLICE_SIZE` for the last slice)")
+    # a non-last slice must be exactly SLICE_SIZE: the `<=` form is only acceptable under `slice_index == num_slices - 1`
+    last_e = [e for e, br in rel_edges(t, ps, lambda a: fmt(strip(a)) == "P2(slice_index)", lambda b: re.search(r"num_slices SubWithOverflow 1\)\.0$", fmt(b)) is not None, "Eq")]
+    not_last = [e for e, br in rel_edges(t, ps, lambda a: fmt(strip(a)) == "P2(slice_index)", lambda b: re.search(r"num_slices SubWithOverflow 1\)\.0$", fmt(b)) is not None, "Ne")]
+    eq_edges = {e for e, br in rel_edges(t, ps, is_len, is_S, "Eq")}
+    # a slice that is not the last one must be exactly SLICE_SIZE: without the `== SLICE_SIZE` edges and the `is last slice` edges the copy is unreachable
+    if cp and (last_e or not_last):
+        seen = reachable_avoiding(ps, 0, eq_edges | set(last_e))
+        if any(c.bb in seen for c in cp): r.bad("size-exact", cp[0], "a slice that is not the last one can be copied without `len(bytes) == SLICE_SIZE`: a short middle slice leaves a hole / shifts data")
+    elif cp: r.bad("size-last", cp[0], "no `slice_index == num_slices - 1` distinction before the copy")
     out.append(r)
 
     r = RuleResult("C03.d", "reassembly state is keyed by the slice's own message id", floor=6)
@@ -144,7 +153,9 @@ def length_from_last_slice(t):
         if not any(t.edge_dominates(f, te, c.bb) for br, op, te, fe in last): r.bad(f"len-change|{m}", c, f"{m}() changes the reassembly buffer length outside the `slice_index == num_slices - 1` branch: the message length would depend on arrival order")
         elif m == "resize":
             ln = fmt(t.arg(c, 1))
-            if not (f"num_slices SubWithOverflow 1).0 MulWithOverflow {S}" in ln and "len(P3(bytes))" in ln.replace("&*", "").replace("&", "")): r.bad("len-value", c, f"final length is {ln[-80:]}, expected (num_slices-1)*SLICE_SIZE + len(bytes)")
+            lnn = ln.replace("&*", "").replace("&", "")
+            # under `slice_index == num_slices - 1` both spellings denote the same length
+            if not ((f"num_slices SubWithOverflow 1).0 MulWithOverflow {S}" in ln or f"P2(slice_index) MulWithOverflow {S}" in ln) and "len(P3(bytes))" in lnn): r.bad("len-value", c, f"final length is {ln[-80:]}, expected (num_slices-1)*SLICE_SIZE + len(bytes)")
     return r
 
 _rules_c03b = rules
